@@ -410,7 +410,7 @@ fn gen_value(t: Target, rng: &mut Rng, counter: &mut i64) -> (i64, How) {
         ),
         Kind::GlobalDefs => (rng.range_i64(-1, 1), How::Set),
         Kind::Font => (rng.below(4) as i64, How::Set),
-        Kind::MathCode => (rng.range_i64(0, 32768), How::Set),
+        Kind::MathCode => (rng.range_i64(0, 32767), How::Set), // "8000 is legal TeX but rejected by texcraft ([0, 32768)): not C01's subject
         Kind::IntParam => (fresh(counter), How::Set),
         Kind::ToksDef => (1 + rng.below(2) as i64, How::Set),
         Kind::MathCharDef => (fresh(counter) % 32768, How::Set),
